@@ -725,6 +725,27 @@ theorem cellbase_output_at_finalization_delay_rejected :
       { cbOutputs := 1, cbCapacity := 1000, expReward := 1000, cbLockEq := true } = some .rewardTarget := by
   decide
 
+/-- the `TemplateSize` bookkeeping stays exact (total and the three parts = the real sizes of the
+    template it describes) and within `max_block_bytes` under ANY sequence of service messages — the
+    invariant the `tsize` lines evaluate on the real assembler after every scenario op -/
+theorem svc_template_size_exact (cfg : Cfg) (U mc mp : Nat) (cxOf : Tip → Cx) (g : GSt)
+    (op0 : GOp) (ops : List GOp) (hb : op0.isBlank = true)
+    (h0 : op0.Ok cfg U mc mp cxOf g)
+    (hops : GOkRun cfg U mc mp cxOf (gstep cfg U mc mp g op0) ops) :
+    Template.Inv ((grun cfg U mc mp (gstep cfg U mc mp g op0) ops).a.toTSt cfg U) :=
+  (grun_inv cfg U mc mp cxOf ops _ (gstep_blank_inv cfg U mc mp cxOf g op0 hb h0) hops).size
+
+/-- `update_uncles` touches neither template nor container unless BOTH of its guards pass (fewer than
+    `max_uncles_num` uncles in the template, more than one uncle's size left) -/
+theorem update_uncles_guards (cfg : Cfg) (U mc mp : Nat) (g : GSt)
+    (h : ¬ g.a.t.uncles.length < cfg.maxUncles ∨ ¬ cfg.maxBytes - g.a.t.sTotal > U) :
+    gstep cfg U mc mp g .uncles = g := by
+  rcases h with h | h
+  · simp [gstep, h]
+  · simp only [gstep]; split
+    · simp [h]
+    · rfl
+
 /-- the staleness guard: while the pool's snapshot is on another tip than the assembler's, the three
     pool-reading paths leave assembler, container and tip exactly as they are -/
 theorem stale_pool_tip_leaves_template (cfg : Cfg) (U mc mp : Nat) (g : GSt) (poolTip : Nat) (hne : g.tipId ≠ poolTip)
